@@ -33,18 +33,19 @@ def gen_consts():
 SOURCE_TABLES = []   # functions () -> (ok, log), appended by translate_src
 
 
-def regenerate():
-    logs = []
-    ok_all = True
+def regenerate(details=False):
+    """Regenerate every table. Returns (ok, log); with details=True returns [(module, ok, log)], where module is
+    'consts' for GenConsts.v and otherwise the name of the tools/props module that defines the generator."""
+    res = []
     ok, lg = gen_consts()
-    ok_all &= ok
-    logs.append(lg)
+    res.append(('consts', ok, lg))
     try:
         from . import translate_src
         for f in translate_src.TABLES:
             ok, lg = f()
-            ok_all &= ok
-            logs.append(lg)
+            res.append((getattr(f, 'k1_module', 'src'), ok, lg))
     except ImportError:
         pass
-    return ok_all, '; '.join(logs)
+    if details:
+        return res
+    return all(r[1] for r in res), '; '.join(r[2] for r in res)
